@@ -209,7 +209,7 @@ def group_validity(ctx, stats):
         else:
             e = '{a: for d in 0..32 return date(%d,%d,d), w: for x in a return x.weekday, q: for x in a return [x.year, x.month, x.day]}' % (y, m)
         reqs.append({'e': e})
-        terms.append('map (fun d => (is_valid_date %s %s d, weekday_orig (%s, %s, d))) (zrange 0 33)' % (zt(y), zt(m), zt(y), zt(m)))
+        terms.append('map (fun d => (is_valid_date %s %s d, weekday_impl (%s, %s, d))) (zrange 0 33)' % (zt(y), zt(m), zt(y), zt(m)))
     impl = ctx.run_impl('feel', reqs)
     model = ctx.run_model(HEADER, terms, shard_size=120, tag='A')
     for (y, m), r, mt in zip(months, impl, model):
@@ -223,7 +223,7 @@ def group_validity(ctx, stats):
             stats['validity'] += 1
             mv, mw = mt[d][0], opt(mt[d][1])
             pv = valid(y, m, d) and abs(y) <= FEEL_MAX
-            if mv != pv or (pv and CHRONO_MIN <= y <= CHRONO_MAX and mw != weekday(y, m, d)):
+            if mv != pv or (pv and mw != weekday(y, m, d)):
                 raise RuntimeError('C15 model and the independent Python calendar disagree at %s' % ((y, m, d),))
             if 1 <= y <= 9999 and pv and datetime.date(y, m, d).isoweekday() != mw:
                 raise RuntimeError('C15 model and datetime disagree at %s' % ((y, m, d),))
@@ -246,9 +246,6 @@ def group_validity(ctx, stats):
             iw = num(c['w'][d])
             want = weekday(y, m, d)
             if iw != want:
-                if iw is None and mw is None and not (CHRONO_MIN <= y <= CHRONO_MAX):
-                    if ctx.known('far-weekday', case):
-                        continue
                 ctx.violation('weekday of %s is %s, the calendar says %s' % ((y, m, d), iw, want), case, impl=c['w'][d], model=want)
     ctx.sample({'group': 'validity', 'example': reqs[5]['e'][:120] + '...', 'months': len(months)})
 
@@ -499,7 +496,7 @@ def group_datetime(ctx, stats):
     terms = []
     for k in range(0, len(idx), B):
         items = ['(%s, %s)' % (coq_dt(pairs[i][0], resolved[i][0]), coq_dt(pairs[i][1], resolved[i][1])) for i in idx[k:k + B]]
-        terms.append('map (fun p => let a := fst p in let b := snd p in (dt_compare_impl a b, dt_subtract_impl a b, dt_subtract_spec a b, weekday_orig (dt_date a), chrono_dt a && chrono_dt b)) [%s]' % '; '.join(items))
+        terms.append('map (fun p => let a := fst p in let b := snd p in (dt_compare_impl a b, dt_subtract_impl a b, dt_subtract_spec a b, weekday_impl (dt_date a), chrono_dt a && chrono_dt b)) [%s]' % '; '.join(items))
     model = dict(zip(idx, [x for part in ctx.run_model(HEADER, terms, shard_size=2, tag='E') for x in part]))
     for i, ((a, b), rq, r) in enumerate(zip(pairs, reqs, impl)):
         ctx.evaluations += 1
@@ -539,7 +536,6 @@ def group_datetime(ctx, stats):
         far = not in_chrono      # a year outside chrono's range, or the boundary year with an offset that moves the UTC date-time outside it
         if far and all(CHRONO_MIN < x[0][0] < CHRONO_MAX for x in (a, b)):
             raise RuntimeError('C15 model calls %s far although both years are inside chrono\'s range' % rq['e'])
-        far_date = not (CHRONO_MIN <= y <= CHRONO_MAX)
         # independent recomputation of the instant difference
         def inst(x, o):
             (yy, mm, dd), hh, mmi, ss, nn, _ = x
@@ -551,10 +547,9 @@ def group_datetime(ctx, stats):
             ctx.nontrivial.add((a, b))
         # weekday
         ww = weekday(y, m, d)
-        if num(v[8]) != ww:
-            if not (num(v[8]) is None and far_date and ctx.known('far-datetime', case)):
-                ctx.violation('weekday of %s is %s, the calendar says %s' % (dt_lit(a), v[8], ww), case, impl=v[8], model=ww)
-                continue
+        if num(v[8]) != ww or mw != ww:
+            ctx.violation('weekday of %s is %s, the calendar says %s' % (dt_lit(a), v[8], ww), case, impl=v[8], model=ww)
+            continue
         # comparison
         c = 'Lt' if spec < 0 else ('Gt' if spec > 0 else 'Eq')
         lt, eq, gt = c == 'Lt', c == 'Eq', c == 'Gt'
@@ -677,7 +672,7 @@ def group_durations(ctx, stats):
             if got != want or total != n or v[4] is not None:
                 ctx.violation('duration of %d months: years/months %s (expected %s), value %s, .days %s' % (n, got, want, v[2], v[4]), case, impl=v, model=want)
             elif neg != -n:
-                if not (v[3] is None and ctx.known('ymd-arith', case)):
+                if True:
                     ctx.violation('negation of a duration of %d months is %s' % (n, v[3]), case, impl=v[3], model=-n)
     # all ordered pairs: addition, comparison
     EXPR = '[a + b, a = b, a in (< b), a in (<= b), a in (> b), a in (>= b), a between b and b, a in [b..b], a != b]'
@@ -700,8 +695,6 @@ def group_durations(ctx, stats):
                 continue
             got = [parse(v[0][tag]) if isinstance(v[0], dict) and tag in v[0] else None] + v[1:]
             if got != want:
-                if kind == 'ymd' and got[1:] == want[1:] and got[0] is None and ctx.known('ymd-arith', case):
-                    continue
                 ctx.violation('%s durations a=%d b=%d: %s = %s, expected %s' % (kind, a, b, EXPR, json.dumps(v), json.dumps(want)), case, impl=v, model=want)
         ctx.sample({'group': 'duration', 'example': reqs[1]['e'], 'impl': impl[1]})
 
@@ -854,14 +847,14 @@ def run(ctx):
     for name, g in GROUPS:
         g(ctx, stats)
     return ctx.finish(
-        rule='(A) every day 00..32 of every month of the listed years (quick: 1890-2110, century years, years -1..999 samples, far years to +-999999999; thorough: every year -1..2400) '
+        rule='(Z) date-times in named zones around every offset transition of the sampled years: time offset, equality/order against the same instant written with Z and with the explicit offset, differences across the switch, expected values from zoneinfo; (A) every day 00..32 of every month of the listed years (quick: 1890-2110, century years, years -1..999 samples, far years to +-999999999; thorough: every year -1..2400) '
              'through date("...") literals and date(y,m,d): validity, printed components, year/month/day, weekday; (B) date(y,m,d) on a boundary grid of numbers '
              '(0, negatives, halves, 12/13, 31/32, 255..284, 2^32+k, +-999999999, +-2^31); (C) ordered pairs of dates and calendar neighbours incl. far years with 14 comparison forms; '
              '(D/E) pairs of date-times with explicit offsets, Z, local and named zones (offset read from the implementation): properties, 7 comparison forms, a-b and b-a against the instant difference; '
              '(F) years and months duration on an exhaustive boundary alphabet and random pairs, date and date-time arguments; (G) duration components, negation, all ordered pairs of an alphabet for + and comparisons. '
              'non-trivial = boundary days / rejected or narrowed numbers / far or same-year pairs / different offsets / reversed or different-day pairs / negative or >= 12 month durations',
         extra_cov={'exhaustive': False, 'cases_by_group': stats},
-        assumptions=['named-zone offsets are taken from the implementation\'s own `time offset` (zone rules of chrono-tz are not modelled); local times that do not exist in a zone are skipped',
+        assumptions=['zone rules are not modelled in Coq; group Z checks the offset of a named zone at a local time against Python zoneinfo (system tzdata, an independent copy of the IANA database) for %d zones, years %d-%d, on transition days +-5 h and the days around, excluding repeated/skipped local times; in group D/E named-zone offsets are read from the implementation\'s own `time offset` (there only the time-line arithmetic is checked)' % (len(TZ_ZONES), TZ_YEARS[0], TZ_YEARS[1]),
                      'TZ=UTC is set for the harness process so that zone-less date-times have offset 0',
                      'duration components of a negative days-and-time duration are those of its absolute value, of a years-and-months duration carry its sign (as the code does; named interpretive choice)',
                      'numbers given to date(y,m,d) are rounded half-even to integers before the range test (as decQuadToInt32 does; named interpretive choice)'],
@@ -890,6 +883,7 @@ MANIFEST = dict(
     text='Theorems (coq/Props/C15.v, closed under the global context): civil date <-> day number round trip in both directions and order isomorphism for every year (era shift proved algebraically, one 400-year era swept by vm_compute), '
          'validity = month lengths + leap rule, weekday recurrence anchored at 1970-01-01, is_valid_date / date(y,m,d) with explicit 8-bit narrowing / FeelDate::ym_duration transliterated and proved equal to their specifications '
          '(whole months characterised uniquely, sign-symmetric), date-time comparison and subtraction = instants with offsets, duration components recombine. Tied to feel/src/temporal/*.rs and the evaluator through FEEL expressions on '
-         'every day of the sampled years, boundary grids and pairs; original defective variants kept as _orig with _refuted theorems.',
+         'every day of the sampled years, boundary grids and pairs; original defective variants kept as _orig with _refuted theorems. Zone rules stay outside the Coq model: the zone database the code links (chrono-tz) is cross-checked '
+         'against an independent copy (Python zoneinfo / system tzdata) on and around the transition days of 17 zones, 1990-2021, instead of being taken from the implementation.',
     note='Trusted: Coq kernel + vm_compute, hand-written model (correspondence-checked, not verified), chrono/chrono-tz modelled by the calendar (zone offsets read from the implementation), harness, Python driver. '
-         'Known findings: weekday and date-time comparison/subtraction are null beyond chrono\'s years -262143..262142; a - b is null beyond ~292 years; years-and-months durations cannot be added or negated.')
+         'Known findings: date-time comparison/subtraction are null beyond chrono\'s years -262143..262142; a - b is null beyond ~292 years.')
